@@ -46,7 +46,7 @@ class C16Engine(C09.C09Engine):
                 keep.update(world.m[t]["idxs"])
             sub.m = {h: world.m[h] for h in world.m if h in keep}
             rk = {"sql_renderer": env.renderers["sql"][d["sqlr"]], "dbml_renderer": env.renderers["dbml"][d["dbmlr"]]}
-            pre = C10.realize_by_parse(env, sub, db1, rk)
+            pre = C10.realize_by_parse(env, sub, db1, rk, d.get("source_style", "str"))
             if pre is None:
                 self.precondition_failed = True
         super().__init__(env, world, PROP, pre=pre)
@@ -242,6 +242,7 @@ def gen_world(rng: random.Random, via: str) -> World:
     if rng.random() < 0.5:
         cfgs[0] = ("default", "default")
     w.m[db1]["sqlr"], w.m[db1]["dbmlr"] = cfgs[0]
+    w.m[db1]["source_style"] = rng.choice(["str", "str", "path", "file"])
     for c in cfgs[1:]:
         h = w.db(sqlr=c[0], dbmlr=c[1])
         w.m[h]["positional"] = rng.random() < 0.5
